@@ -70,7 +70,7 @@ CLAIMED = {
          "arithmetic (hh*100+flag, fg*100+k with k<100) is covered by C12 (wthh_no_collision, bg_nests_in_fg, bg_collision_at_100)."
          " Concrete model: Props/C02Sim.lean (ruleOp/groupAggOp/pidSumOp on A++B restricted to A = on A under disjoint group ids / closed pointers, lifted: sys_eval_union, pruned_eval_union, sys_eval_union_of_parts; counterexamples without the separation hypotheses), Props/C12Cor.lean (union and relabelling theorems for all id constructors)."
          " End to end: Props/C02E2E.lean (simulate_union, simulate_union_snd, simulate_union_of_parts with computable separation checks and counterexamples)."
-         " Props/C02Ids.lean: id constructors under unions (groupingOp_union, groupAggOp_grouping_union); the DAG lift with computed ids under unions is not done (partial there)."),
+         " Props/C02Ids.lean: id constructors under unions (groupingOp_union, groupAggOp_grouping_union); sys_eval_union_ids (the DAG lift with computed ids under unions)."),
  "C04": ("5/C04", "Lean 4 theorems: prune_sound, targets_indep, run_shape, extra_data_irrelevant on the abstract DAG model; search on "
          "the real system: every node alone / in random target sets / with all nodes, noise columns, debug and minimal-specification options"
          " + target independence, sub-target success and row count proved for the concrete model Core/Simulate.lean; node-purity search (read-only inputs)",
